@@ -52,7 +52,7 @@ fn mutate(rng: &mut Rng, seeds: &[Vec<char>], maxlen: usize) -> String {
     let rounds = 1 + rng.below(4);
     for _ in 0..rounds {
         let n = t.len();
-        match rng.below(13) {
+        match rng.below(14) {
             0 if n > 0 => {
                 let a = rng.below(n);
                 let b = (a + 1 + rng.below(8)).min(n);
@@ -146,6 +146,17 @@ fn mutate(rng: &mut Rng, seeds: &[Vec<char>], maxlen: usize) -> String {
                     }
                 }
             }
+            12 => {
+                // escape soup at a random position (often lands inside a string literal of the seed)
+                let at = rng.below(n + 1);
+                let mut k = 0;
+                for _ in 0..(1 + rng.below(4)) {
+                    for c in ESC[rng.below(ESC.len())].chars() {
+                        t.insert(at + k, c);
+                        k += 1;
+                    }
+                }
+            }
             _ => {
                 let d = DICT[rng.below(DICT.len())];
                 t.extend(d.chars());
@@ -156,6 +167,45 @@ fn mutate(rng: &mut Rng, seeds: &[Vec<char>], maxlen: usize) -> String {
         }
     }
     t.into_iter().collect()
+}
+
+const ESC: &[&str] = &[
+    "\\", "0", "1", "7", "8", "9", "x", "u", "U", "N", "{", "}", "a", "f", "F", "n", "\n", "\r", "'", "\"", "\\0", "\\1", "\\7", "\\12", "\\377", "\\400", "\\x4", "\\xg",
+    "\\u12", "\\U0010", "\\N{", "\\N{A}", "\\N{LATIN SMALL LETTER A}", "{{", "}}", "{x}", "{x!r}", "{x:", "{x=", "!", ":", "\u{e9}", "\u{1d11e}", "\u{0}", " ", "_", ".", "e", "j",
+];
+
+/// A string / bytes / f-string literal (or number-like text) whose body is drawn from an escape alphabet.
+fn literal_soup(rng: &mut Rng) -> String {
+    let prefixes = ["", "", "b", "r", "f", "rb", "fr", "u", "F", "B", "Rb", "bR", "f", "f"];
+    let quotes = ["'", "\"", "\'\'\'", "\"\"\""];
+    let mut s = String::new();
+    let pieces = 1 + rng.below(3);
+    for p in 0..pieces {
+        if p > 0 {
+            s.push(' ');
+        }
+        if rng.below(8) == 0 {
+            // number-like
+            for _ in 0..(1 + rng.below(8)) {
+                s.push_str(["0", "1", "9", "_", ".", "e", "E", "+", "-", "j", "x", "b", "o", "f", "a"][rng.below(15)]);
+            }
+            continue;
+        }
+        s.push_str(prefixes[rng.below(prefixes.len())]);
+        let q = quotes[rng.below(quotes.len())];
+        s.push_str(q);
+        for _ in 0..rng.below(10) {
+            s.push_str(ESC[rng.below(ESC.len())]);
+        }
+        if rng.below(12) != 0 {
+            s.push_str(q);
+        }
+    }
+    match rng.below(4) {
+        0 => format!("x = {}\n", s),
+        1 => format!("f({})", s),
+        _ => s,
+    }
 }
 
 fn token_soup(rng: &mut Rng, maxlen: usize) -> String {
@@ -205,7 +255,11 @@ pub fn op_fuzz(args: &[&str], payload: &[u8]) -> String {
     let mut only_off = 0u32;
     for i in start..start + count {
         let mut rng = Rng::new(seed.wrapping_mul(0x100000001B3) ^ i.wrapping_mul(0x9E3779B97F4A7C15));
-        let text = if rng.below(10) == 0 { token_soup(&mut rng, maxlen) } else { mutate(&mut rng, &seeds, maxlen) };
+        let text = match rng.below(20) {
+            0 | 1 => token_soup(&mut rng, maxlen),
+            2 | 3 | 4 => literal_soup(&mut rng),
+            _ => mutate(&mut rng, &seeds, maxlen),
+        };
         let (mname, mode) = [("exec", Mode::Module), ("single", Mode::Interactive), ("eval", Mode::Expression)][rng.below(3)];
         let len = text.len() as u32;
         let off: u32 = match rng.below(8) {
